@@ -280,6 +280,27 @@ class Driver:
             exc = e
         self.emit({"op": "register", "a": list(a), "T": T}, exc)
 
+    def _raw(self, a, T, which):
+        """SystemManager.register_component / deregister_component on their own, on the listings of the agent's own model -
+        whether or not the agent is resident."""
+        ag = self.agents[tuple(a)]
+        comp = ag.components.get(TYPES[T])
+        if comp is None:
+            return
+        m = self.model_of(a)
+        exc = None
+        try:
+            getattr(self.models[m][0].systems, which + "_component")(comp)
+        except Exception as e:  # noqa: BLE001
+            exc = e
+        self.emit({"op": which + "_raw", "a": list(a), "m": m, "T": T, "s": self.comp_ids.get(id(comp), (None, -1))[1]}, exc)
+
+    def op_register_raw(self, a, T):
+        self._raw(a, T, "register")
+
+    def op_deregister_raw(self, a, T):
+        self._raw(a, T, "deregister")
+
     def op_join(self, a, p, target=None, frac=False):
         ag = self.agents[tuple(a)]
         m = target or self.model_of(a)
@@ -558,7 +579,7 @@ def random_run(rng, *, kinds=("plain",), n_models=2, n_ids=3, length=40, mods="c
     W = {"agent": 2, "attach": 8, "detach": 4, "join": 10, "leave": 6, "lookup": 3 if lookups else 0,
          "move": 8 if spatial else 0, "move_to": 5 if spatial else 0, "agents_at": 5 if (spatial and queries) else 0,
          "get_agents": 4 if queries else 0, "pick": 2 if (queries and nseeds) else 0, "shuffle": 2 if queries else 0,
-         "register": 2 if mods == "any" else 0}
+         "register": 2 if mods in ("any", "raw") else 0, "raw": 14 if mods == "raw" else 0}
     if weights:
         W.update(weights)
     names = [k for k, v in W.items() if v > 0]
@@ -607,6 +628,11 @@ def random_run(rng, *, kinds=("plain",), n_models=2, n_ids=3, length=40, mods="c
                 continue
             dereg = res and (mods == "sanctioned" or rng.random() < 0.5)
             do(["detach", a, T, dereg])
+        elif op == "raw":
+            # the low-level calls on their own, for agents in (or bound for) their own model's environment, resident or not
+            have = [t for t in LISTED if TYPES[t] in d.agents[tuple(a)]]
+            if d.where(a) in (None, m) and have:
+                do([rng.choice(["register_raw", "register_raw", "deregister_raw"]), a, rng.choice(have)])
         elif op == "register":
             T = rng.choice(LISTED)
             if resident(a) and TYPES[T] in d.agents[tuple(a)]:
